@@ -206,6 +206,11 @@ func observeBash(file, src string, others map[string]string) bashObs {
 		return bashObs{verdict: tr.Verdict(), stderr: tr.ErrText()}
 	}
 	res := run.RunBash(tr.Script, run.ExecOpts{Timeout: 8 * time.Second})
+	if res.TimedOut {
+		// a time-out only counts when the machine is not stalled: wait until it is responsive, then decide with a long limit
+		run.WaitResponsive()
+		res = run.RunBash(tr.Script, run.ExecOpts{Timeout: 60 * time.Second})
+	}
 	return bashObs{verdict: "accept", stdout: res.Stdout, status: res.Status, stderrEmpty: res.Stderr == "", stderr: res.Stderr, timedOut: res.TimedOut, script: tr.Script}
 }
 
